@@ -369,7 +369,7 @@ def run(facts, rep, tier, ctx):
     # R05.6
     from ..report import Report
     scratch = Report("x")
-    c01.table_m(facts, scratch, "M", "Mk", ops_filter=("read_dir", "open_file", "create_dir", "create_file", "remove_dir") + c01.TWO_PATH_OPS)
+    c01.table_m(facts, scratch, "M", "Mk", ops_filter=("read_dir", "open_file", "create_dir", "create_file", "remove_dir", "remove_file") + c01.TWO_PATH_OPS)
     k = 0
     for o in scratch.obligations:
         # (for the creating operations only the row that keeps "exists iff the parent lists it": the parent is there)
@@ -432,7 +432,7 @@ def run(facts, rep, tier, ctx):
         k += physrules.table_o_shape(facts, A, "R05.6p", wa)
         scratch = Report("xa")
         c01.table_m(facts, scratch, "M", "Mk", self_ty=wa.memory, trait="AsyncFileSystem",
-                    ops_filter=("read_dir", "open_file", "create_dir", "create_file", "remove_dir") + c01.TWO_PATH_OPS)
+                    ops_filter=("read_dir", "open_file", "create_dir", "create_file", "remove_dir", "remove_file") + c01.TWO_PATH_OPS)
         for o in scratch.obligations:
             if o["rule"] == "M" and (o["key"].split("|")[2].split(":")[0] not in ("create_dir", "create_file") or "'parent exists'" in o["key"]):
                 k += 1
